@@ -2374,7 +2374,8 @@ def c11(ctx):
         if a != b"x." + p_:
             ctx.S("a row of data/raw.csv is not the U-label of the same row of data/punycode.csv", op="U 0 %s" % hx(b"x." + r), raw=r.decode(errors="replace"), punycode=p_.decode(), converted=repr(a))
     # no domain absent from the CSV is found: near misses and byte aliases of every row, straight into is_tld
-    labels = [l for l in dict.fromkeys(gen.tld_labels([r[0] for r in tbl], ctx.tier, ctx.rng)) if l and 0 not in l]
+    # (the names come from the CSV as well as from the compiled table: the CSV is what dictates, whatever shape the table takes)
+    labels = [l for l in dict.fromkeys(gen.tld_labels(list(dict.fromkeys([r[0] for r in tbl] + [x.lower() for x in pun])), ctx.tier, ctx.rng)) if l and 0 not in l]
     ct = ctx.K("is_tld", "default", ["T %s" % hx(l) for l in labels], nontrivial=lambda op, ln: True)
     st = ctx.spec(["sT %s" % hx(l) for l in labels])
     for l, cl, sl in zip(labels, ct, st):
